@@ -426,7 +426,7 @@ func (e *executor) completeValue(fieldType schema.Type, fields []*ast.Field, res
 			objectType = fieldType
 		case *schema.InterfaceType:
 			for _, t := range e.Schema.InterfaceImplementations(fieldType.Name) {
-				if t.IsTypeOf(result) {
+				if t.RequiredFeatures.IsSubsetOf(e.Features) && t.IsTypeOf(result) {
 					objectType = t
 					break
 				}
